@@ -17,7 +17,7 @@ CLS = "{G Fp : Type} [Add G] [Sub G] [Neg G] [Zero G] [SMul Int G] [Add Fp] [Sub
 HYP = """(sq : Nat → Option Nat) (edA edD edCofactor : Fp) (edBase : G)
     (dec : Bytes → G) (decErr : Bytes → Res) (onC : G → Bool) (φ : G → Nat × Nat)
     (hdec : ∀ b, φ (dec b) = (PP).decompress sq b) (honC : ∀ X, onC X = (PP).onCurve (φ X))
-    (herr : ∀ b : Bytes, b.length = (PP).size → decErr b = Res.ok) (R0 : G) (s0 buf : Bytes) (hs : s0.length = (PP).size)"""
+    (herr : ∀ b : Bytes, b.length = (PP).size → (decErr b = Res.ok ↔ (PP).hasX sq b = true)) (R0 : G) (s0 buf : Bytes) (hs : s0.length = (PP).size)"""
 ARGS = "sq edA edD edCofactor edBase dec decErr onC φ hdec honC herr R0 s0 buf hs"
 
 HEADER = """/- INSTANTIATED by bin/mkc12sign.py (one proof template for all packages). DO NOT EDIT: edit the script and re-run it. -/
@@ -35,15 +35,16 @@ error, IsOnCurve (reported with n = sizeFr), the copy of S, the returned byte co
 PARAMETERS (not looked into): `pointSetBytes` / `pointSetBytesErr` (twistededwards PointAffine.SetBytes: receiver after the call and its
 error), `isOnCurve`, the curve parameters `edOrder` (+ edA, edD, edCofactor, edBase, unused); big.Int SetBytes / Cmp are exact integers.
 HYPOTHESES of the model theorems, stated explicitly: an abstraction map φ : G → ℕ × ℕ with `φ (pointSetBytes b) = EdParams.decompress sq b`
-(the model's decompression; C07's territory), `isOnCurve X = EdParams.onCurve (φ X)`, `pointSetBytesErr b = nil` for buffers of exactly
-sizeFr bytes (the Go function fails on short buffers only), and `edOrder` = the model's order. `_model` instantiates them with the
+(the model's decompression; C07's territory), `isOnCurve X = EdParams.onCurve (φ X)`, `pointSetBytesErr b = nil ↔ EdParams.hasX sq b` for buffers of exactly
+sizeFr bytes (the Go function fails on short buffers and, since gnark-crypto 5916472, when the ordinate has no abscissa), and `edOrder` = the model's order. `_model` instantiates them with the
 model's own dictionary (so they are satisfiable).
 
 `_shape`: generated def = template of Proofs/SigSignGen.lean at this package's size / modulus (`rfl`; a changed statement breaks it).
 `_setbytes`: generated = the answer read off `EdParams.sigParse` (Model/Sig.lean) on EVERY buffer: error names in the order of the Go
 text, (0, err) with the receiver untouched on every error but errNotOnCurve ((sizeFr, err), R already overwritten), (2·sizeFr, nil) otherwise.
 `_setbytes_ok` / `_setbytes_err`: exact acceptance and consumed length: sigParse accepts (k, R, s) ⇒ n = k = 2·sizeFr = len(buf),
-φ(sig.R) = R, sig.S = buf[sizeFr:] with big-endian value s; sigParse rejects with e ⇒ the Go error named by e, sig.S untouched.
+φ(sig.R) = R, sig.S = buf[sizeFr:] with big-endian value s; sigParse rejects with e ⇒ a non-nil error, the Go error named by e
+(for e = noSqrt: the error of PointAffine.SetBytes itself, handed on), sig.S untouched.
 
 KNOWN FINDINGS not hidden by this: SetBytes bounds the ordinate under the sign bit by fr.Modulus() and refuses y = 0, but a PUBLIC KEY's
 ordinate is never range-checked (PublicKey.SetBytes is not translated here; see bin/kf_data.py C12) — the theorem says nothing about keys.
@@ -65,7 +66,7 @@ theorem C12sign_CC_setbytes_shape CLS :
     NS.Signature_SetBytes (G := G) (Fp := Fp) = edSigSetBytesT (PP).size ((PP).q : Int) := rfl
 
 theorem C12sign_CC_setbytes CLS HYP :
-    NS.Signature_SetBytes edA edD edCofactor ((PP).order : Int) edBase dec decErr onC R0 s0 buf = edSigExpected (PP) sq dec R0 s0 buf := by
+    NS.Signature_SetBytes edA edD edCofactor ((PP).order : Int) edBase dec decErr onC R0 s0 buf = edSigExpected (PP) sq dec decErr R0 s0 buf := by
   rw [C12sign_CC_setbytes_shape]
   exact edSigSetBytesT_spec (PP) (by decide) ARGS
 
@@ -80,17 +81,19 @@ theorem C12sign_CC_setbytes_ok CLS HYP
 
 theorem C12sign_CC_setbytes_err CLS HYP
     (e : Err) (h : (PP).sigParse sq buf = .error e) :
-    (NS.Signature_SetBytes edA edD edCofactor ((PP).order : Int) edBase dec decErr onC R0 s0 buf).2.1 = Res.err (edErrName e) ∧
+    (e ≠ .noSqrt → (NS.Signature_SetBytes edA edD edCofactor ((PP).order : Int) edBase dec decErr onC R0 s0 buf).2.1 = Res.err (edErrName e)) ∧
+    (NS.Signature_SetBytes edA edD edCofactor ((PP).order : Int) edBase dec decErr onC R0 s0 buf).2.1 ≠ Res.ok ∧
     (NS.Signature_SetBytes edA edD edCofactor ((PP).order : Int) edBase dec decErr onC R0 s0 buf).2.2.2 = s0 := by
   rw [C12sign_CC_setbytes_shape]
-  exact ⟨(edSigSetBytesT_err (PP) (by decide) ARGS e h).1, (edSigSetBytesT_err (PP) (by decide) ARGS e h).2.1⟩
+  have t := edSigSetBytesT_err (PP) (by decide) ARGS e h
+  exact ⟨t.1, t.2.1, t.2.2.1⟩
 
 /-- non-vacuity: the hypotheses hold for the model's own dictionary, for every buffer -/
 theorem C12sign_CC_setbytes_model (sm : Nat → Nat × Nat → Nat × Nat) (sq : Nat → Option Nat)
     (edA edD edCofactor : EF (PP).q) (edBase R0 : EdG (PP) sm) (s0 buf : Bytes) (hs : s0.length = (PP).size) :
     NS.Signature_SetBytes (G := EdG (PP) sm) (Fp := EF (PP).q) edA edD edCofactor ((PP).order : Int) edBase
-        (fun b => ⟨(PP).decompress sq b⟩) (fun _ => Res.ok) (fun X => (PP).onCurve X.p) R0 s0 buf
-      = edSigExpected (PP) sq (fun b => (⟨(PP).decompress sq b⟩ : EdG (PP) sm)) R0 s0 buf := by
+        (fun b => ⟨(PP).decompress sq b⟩) (edDecErr (PP) sq) (fun X => (PP).onCurve X.p) R0 s0 buf
+      = edSigExpected (PP) sq (fun b => (⟨(PP).decompress sq b⟩ : EdG (PP) sm)) (edDecErr (PP) sq) R0 s0 buf := by
   rw [C12sign_CC_setbytes_shape]
   exact edSigSetBytesT_model (PP) (by decide) sm sq edA edD edCofactor edBase R0 s0 buf hs
 """
